@@ -2,11 +2,14 @@
 //!
 //! case: {"cfg":{"ipc":bool,"ihc":bool,"ihdc":bool},            ignore_path_and_query_case / ignore_host_case / ignore_header_case
 //!        "markers":[{"name","regex","tr":[{"type":str|null,"opts":[[k,v]..]|null}]}],
-//!        "vars":[{"name","kind":"marker"|"header"|"host"|"method"|"path"|"scheme","arg":str|null,"def":str|null,"tr":[..]}],
+//!        "vars":[{"name","kind":"marker"|"header"|"host"|"method"|"path"|"scheme"|"ip"|"time","arg":str|null,"def":str|null,"tr":[..]}],
 //!        "path":str, "host":str|null, "hdrs":[{"name","value"}]   (rule side; header triggers are all `match_regex`)
-//!        "target":str|null, "hf":[str], "bf":[str]                 (templates of Location / header-filter / text body-filter values)
-//!        "req":{"path":str,"host":str|null,"scheme":str|null,"method":str|null,"hdrs":[[name,value]..]}}
-//! obs:  {"match":bool, "outs":[{"loc":[..],"hf":[..],"bf":str,"target":str|null} ..]}
+//!        "target":str|null, "hf":[str], "bf":[str], "hbf":[[value, inner|null]]   (templates of Location / header-filter values /
+//!                                                  text body-filter contents / html body-filter value + inner_value)
+//!        "req":{"path":str,"host":str|null,"scheme":str|null,"method":str|null,"hdrs":[[name,value]..],"ip":str|null,
+//!               "time":{"secs":i64,"year":i64,"rfc2822":str|null,"rfc3339":str}|null},
+//!        "cache":{"calls":[limit|null ..],"on_clone":bool}?}      (Router::cache calls after which everything is observed again)
+//! obs:  {"match":bool, "outs":[{"loc":[..],"hf":[..],"bf":str,"hb":[[value,inner]..],"target":str|null} ..]}
 //!       `outs` = the sorted set of outcomes over every order of the variable list that `Rule::variables` can return
 //!       (a stable sort by name length over a HashMap iteration: equal-length names come in any order); normally one element.
 use redirectionio::action::Action;
@@ -70,6 +73,20 @@ fn transformers_json(v: &Value) -> Result<Value, String> {
     Ok(Value::Array(out))
 }
 
+fn html_filters(case: &Value) -> Result<Vec<(String, Option<String>)>, String> {
+    let mut out = Vec::new();
+    if let Value::Array(a) = get(case, "hbf") {
+        for f in a {
+            let v = f.get(0).and_then(|x| x.as_str()).ok_or("hbf value")?;
+            let i = str_or_null(f.get(1).unwrap_or(&Value::Null))?;
+            out.push((v.to_string(), i));
+        }
+    } else if !get(case, "hbf").is_null() {
+        return Err("hbf".into());
+    }
+    Ok(out)
+}
+
 fn rule_json(case: &Value) -> Result<Value, String> {
     let mut markers = Vec::new();
     for m in get(case, "markers").as_array().ok_or("markers")? {
@@ -88,6 +105,8 @@ fn rule_json(case: &Value) -> Result<Value, String> {
                 "method" => json!("request_method"),
                 "path" => json!("request_path"),
                 "scheme" => json!("request_scheme"),
+                "ip" => json!("request_remote_address"),
+                "time" => json!("request_time"),
                 _ => return Err("var kind".into()),
             };
             variables.push(json!({"name": name, "type": kind, "transformers": transformers_json(get(v, "tr"))?}));
@@ -104,10 +123,13 @@ fn rule_json(case: &Value) -> Result<Value, String> {
         .enumerate()
         .map(|(i, v)| json!({"action": "add", "header": format!("X-Out-{i}"), "value": v, "id": null, "target_hash": null}))
         .collect();
-    let bf: Vec<Value> = strs(get(case, "bf"), "bf")?
+    let mut bf: Vec<Value> = strs(get(case, "bf"), "bf")?
         .into_iter()
         .map(|v| json!({"action": "append_text", "content": v, "id": null, "target_hash": null}))
         .collect();
+    for (v, i) in html_filters(case)? {
+        bf.push(json!({"action": "append_child", "value": v, "inner_value": i, "element_tree": ["html", "body"], "css_selector": null, "id": null, "target_hash": null}));
+    }
     Ok(json!({
         "id": "r", "rank": 1,
         "source": {"path": s(case, "path").ok_or("path")?, "host": str_or_null(get(case, "host"))?,
@@ -133,7 +155,36 @@ fn config_of(case: &Value) -> RouterConfig {
 fn request_of(case: &Value, config: &RouterConfig) -> Result<Request, String> {
     let r = get(case, "req");
     let path = s(r, "path").ok_or("req path")?;
-    let mut request = Request::from_config(config, path, str_or_null(get(r, "host"))?, str_or_null(get(r, "scheme"))?, str_or_null(get(r, "method"))?, None, None);
+    // the client address must be in the canonical form `IpAddr::to_string` prints (the model takes the string as it is)
+    let ip = match str_or_null(get(r, "ip"))? {
+        None => None,
+        Some(text) => {
+            let ip: std::net::IpAddr = text.parse().map_err(|_| "ip".to_string())?;
+            if ip.to_string() != text {
+                return Err("ip not in canonical form".into());
+            }
+            Some(ip)
+        }
+    };
+    let mut request = Request::from_config(config, path, str_or_null(get(r, "host"))?, str_or_null(get(r, "scheme"))?, str_or_null(get(r, "method"))?, ip, None);
+    // the request time: seconds since the epoch; `year` / `rfc2822` / `rfc3339` in the case are chrono's own renderings (computed
+    // by the generator): chrono's formatting is a table for the model, the branch on the year is modelled
+    request.created_at = match get(r, "time") {
+        Value::Null => None,
+        t => {
+            let secs = t.get("secs").and_then(|x| x.as_i64()).ok_or("time secs")?;
+            let dt = chrono::DateTime::<chrono::Utc>::from_timestamp(secs, 0).ok_or("time out of range")?;
+            use chrono::Datelike;
+            let in_range = (0..=9999).contains(&dt.year());
+            if t.get("year").and_then(|x| x.as_i64()) != Some(dt.year() as i64)
+                || (in_range && t.get("rfc2822").and_then(|x| x.as_str()) != Some(dt.to_rfc2822().as_str()))
+                || t.get("rfc3339").and_then(|x| x.as_str()) != Some(dt.to_rfc3339().as_str())
+            {
+                return Err("time renderings do not belong to secs".into());
+            }
+            Some(dt)
+        }
+    };
     if let Value::Array(hs) = get(r, "hdrs") {
         for h in hs {
             match (h.get(0).and_then(|x| x.as_str()), h.get(1).and_then(|x| x.as_str())) {
@@ -193,7 +244,8 @@ fn orders(vars: &[(String, String)]) -> Vec<Vec<(String, String)>> {
 /// Sort key shared with the driver (plain byte order of the fields joined by control characters).
 fn outcome_key(o: &Value) -> String {
     let list = |v: &Value| v.as_array().map(|a| a.iter().map(|x| x.as_str().unwrap_or("").to_string()).collect::<Vec<_>>().join("\u{2}")).unwrap_or_default();
-    format!("{}\u{1}{}\u{1}{}\u{1}{}", list(&o["loc"]), list(&o["hf"]), o["bf"].as_str().unwrap_or(""), o["target"].as_str().unwrap_or("\u{3}"))
+    let pairs = |v: &Value| v.as_array().map(|a| a.iter().map(|x| format!("{}\u{4}{}", x[0].as_str().unwrap_or(""), x[1].as_str().unwrap_or(""))).collect::<Vec<_>>().join("\u{2}")).unwrap_or_default();
+    format!("{}\u{1}{}\u{1}{}\u{1}{}\u{1}{}", list(&o["loc"]), list(&o["hf"]), o["bf"].as_str().unwrap_or(""), pairs(&o["hb"]), o["target"].as_str().unwrap_or("\u{3}"))
 }
 
 /// `{"kind":"sub","vars":[[name,value]..],"ts":[template..]}`: the variable list goes through the real `Rule::variables`
@@ -229,9 +281,184 @@ fn run_sub(case: &Value) -> Obs {
     o
 }
 
+/// `{"kind":"tr","chain":[{"type","opts"}..],"vals":[str..]}`: a transformer chain applied to raw strings by the real code (each
+/// string is the default of a request-header variable whose header is absent; `Rule::variables` applies the chain).
+fn run_tr(case: &Value) -> Obs {
+    let chain = match transformers_json(get(case, "chain")) {
+        Ok(c) => c,
+        Err(e) => return Obs::invalid(&e),
+    };
+    let vals = match strs(get(case, "vals"), "vals") {
+        Ok(v) if !v.is_empty() && v.len() < 10000 => v,
+        _ => return Obs::invalid("vals"),
+    };
+    let variables: Vec<Value> = vals
+        .iter()
+        .enumerate()
+        .map(|(i, v)| json!({"name": format!("v{i:04}"), "type": {"request_header": {"name": "X-None", "default": v}}, "transformers": chain}))
+        .collect();
+    let rule: Rule = match serde_json::from_value(json!({"id": "r", "rank": 1, "source": {"path": "/x"}, "variables": variables})) {
+        Ok(r) => r,
+        Err(e) => return Obs::invalid(&format!("rule json: {e}")),
+    };
+    let request = Request::from_config(&RouterConfig::default(), "/x".to_string(), None, None, None, None, None);
+    let mut out = rule.variables(&std::collections::HashMap::new(), &request);
+    out.sort();
+    let mut o = Obs::new(json!(out.into_iter().map(|(_, v)| v).collect::<Vec<_>>())).trivial(chain.as_array().map(|a| a.is_empty()).unwrap_or(true));
+    o.tags.push("kind:tr".into());
+    o
+}
+
+/// `{"kind":"law","ic":bool,"ts":[["l",char]|["g",name,re]..],"s":str}`: the ASSUMPTION of the matching theorems, checked on the
+/// real crate: the pattern rendered from the tokens matches exactly the strings that decompose along the tokens (each group
+/// value accepted by `^(?:re)$`), unanchored search = some substring decomposes, the captures are the first-occurrence values
+/// of some decomposition.
+fn run_law(case: &Value) -> Obs {
+    use regex::RegexBuilder;
+    let ic = get(case, "ic").as_bool().unwrap_or(false);
+    let hay = match s(case, "s") {
+        Some(h) => h,
+        None => return Obs::invalid("s"),
+    };
+    enum T {
+        Lit(char),
+        Grp(String, String),
+    }
+    let mut ts = Vec::new();
+    match get(case, "ts").as_array() {
+        None => return Obs::invalid("ts"),
+        Some(a) => {
+            for t in a {
+                match (t.get(0).and_then(|x| x.as_str()), t.get(1).and_then(|x| x.as_str()), t.get(2).and_then(|x| x.as_str())) {
+                    (Some("l"), Some(c), None) if c.chars().count() == 1 => ts.push(T::Lit(c.chars().next().unwrap())),
+                    (Some("g"), Some(n), Some(re)) => ts.push(T::Grp(n.to_string(), re.to_string())),
+                    _ => return Obs::invalid("token"),
+                }
+            }
+        }
+    }
+    let mut regex = String::new();
+    let mut capture = String::new();
+    let mut seen: Vec<&str> = Vec::new();
+    for t in &ts {
+        match t {
+            T::Lit(c) => {
+                let e = regex::escape(&c.to_string());
+                regex.push_str(&e);
+                capture.push_str(&e);
+            }
+            T::Grp(n, re) => {
+                regex.push_str(&format!("(?:{re})"));
+                if seen.contains(&n.as_str()) {
+                    capture.push_str(&format!("(?:{re})"));
+                } else {
+                    seen.push(n.as_str());
+                    capture.push_str(&format!("(?P<{n}>{re})"));
+                }
+            }
+        }
+    }
+    let build = |p: &str| RegexBuilder::new(p).case_insensitive(ic).build();
+    let (full_re, search_re, cap_re) = match (build(&format!("^{regex}$")), build(&regex), build(&format!("^{capture}$"))) {
+        (Ok(a), Ok(b), Ok(c)) => (a, b, c),
+        _ => return Obs::new(json!({"regex": regex, "capture": capture, "compile": false})).trivial(true),
+    };
+    let full = full_re.is_match(&hay);
+    let search = search_re.is_match(&hay);
+    let caps: Option<Vec<(String, String)>> = cap_re.captures(&hay).map(|c| {
+        let mut v: Vec<(String, String)> = cap_re.capture_names().flatten().filter_map(|n| c.name(n).map(|m| (n.to_string(), m.as_str().to_string()))).collect();
+        v.sort();
+        v
+    });
+    // brute force over the decompositions, with the real language of every group
+    let accs: Vec<Option<regex::Regex>> = ts.iter().map(|t| match t { T::Grp(_, re) => build(&format!("^(?:{re})$")).ok(), _ => None }).collect();
+    let chars: Vec<char> = hay.chars().collect();
+    let ceq = |a: char, b: char| a == b || (ic && a.is_ascii() && b.is_ascii() && a.to_ascii_lowercase() == b.to_ascii_lowercase());
+    // all decompositions of chars[from..to) along ts[i..], as lists of (name, value)
+    fn go(ts: &[T], accs: &[Option<regex::Regex>], chars: &[char], i: usize, from: usize, to: usize, ceq: &dyn Fn(char, char) -> bool, cur: &mut Vec<(String, String)>, out: &mut Vec<Vec<(String, String)>>) {
+        if out.len() > 64 {
+            return;
+        }
+        if i == ts.len() {
+            if from == to {
+                out.push(cur.clone());
+            }
+            return;
+        }
+        match &ts[i] {
+            T::Lit(c) => {
+                if from < to && ceq(*c, chars[from]) {
+                    go(ts, accs, chars, i + 1, from + 1, to, ceq, cur, out);
+                }
+            }
+            T::Grp(n, _) => {
+                for end in from..=to {
+                    let v: String = chars[from..end].iter().collect();
+                    if accs[i].as_ref().map(|r| r.is_match(&v)).unwrap_or(false) {
+                        cur.push((n.clone(), v));
+                        go(ts, accs, chars, i + 1, end, to, ceq, cur, out);
+                        cur.pop();
+                    }
+                }
+            }
+        }
+    }
+    let mut all = Vec::new();
+    go(&ts, &accs, &chars, 0, 0, chars.len(), &ceq, &mut Vec::new(), &mut all);
+    let mut any_sub = false;
+    'outer: for a in 0..=chars.len() {
+        for b in a..=chars.len() {
+            let mut o = Vec::new();
+            go(&ts, &accs, &chars, 0, a, b, &ceq, &mut Vec::new(), &mut o);
+            if !o.is_empty() {
+                any_sub = true;
+                break 'outer;
+            }
+        }
+    }
+    let first_values = |vs: &Vec<(String, String)>| {
+        let mut m: Vec<(String, String)> = Vec::new();
+        for (n, v) in vs {
+            if !m.iter().any(|(k, _)| k == n) {
+                m.push((n.clone(), v.clone()));
+            }
+        }
+        m.sort();
+        m
+    };
+    let caps_ok = match &caps {
+        None => all.is_empty(),
+        Some(c) => all.iter().any(|vs| &first_values(vs) == c),
+    };
+    let mut o = Obs::new(json!({"regex": regex, "capture": capture, "full": full, "search": search,
+        "caps": caps.as_ref().map(|c| c.iter().map(|(n, v)| json!([n, v])).collect::<Vec<_>>())}))
+    .trivial(!ts.iter().any(|t| matches!(t, T::Grp(..))));
+    o.tags.push("kind:law".into());
+    o.tags.push(format!("law:full={full}"));
+    if all.len() > 1 {
+        o.tags.push("law:ambiguous".into());
+    }
+    if full != !all.is_empty() {
+        return o.fail(format!("engine law: ^regex$ matches = {full} but a decomposition along the tokens exists = {}", !all.is_empty()), "engine-law");
+    }
+    if search != any_sub {
+        return o.fail(format!("engine law: unanchored search = {search} but some substring decomposes = {any_sub}"), "engine-law");
+    }
+    if !caps_ok && all.len() <= 64 {
+        return o.fail("engine law: the captures are not the first-occurrence values of any decomposition", "engine-law");
+    }
+    o
+}
+
 fn run(case: &Value) -> Obs {
     if get(case, "kind").as_str() == Some("sub") {
         return run_sub(case);
+    }
+    if get(case, "kind").as_str() == Some("law") {
+        return run_law(case);
+    }
+    if get(case, "kind").as_str() == Some("tr") {
+        return run_tr(case);
     }
     // query strings (sorting, marketing parameters) are C09's: paths here have none, and start with '/'
     for p in [s(case, "path"), s(get(case, "req"), "path")] {
@@ -253,32 +480,87 @@ fn run(case: &Value) -> Obs {
         Ok(r) => r,
         Err(e) => return Obs::invalid(&e),
     };
-    let target_t = rule.target.clone();
-    let hf_t: Vec<String> = rule.header_filters.clone().unwrap_or_default().into_iter().map(|f| f.value).collect();
-    let bf_t: Vec<String> = strs(get(case, "bf"), "bf").unwrap_or_default();
-    let explicit_vars = !rule.variables.is_empty();
+    let ctx = Ctx {
+        target_t: rule.target.clone(),
+        hf_t: rule.header_filters.clone().unwrap_or_default().into_iter().map(|f| f.value).collect(),
+        bf_t: strs(get(case, "bf"), "bf").unwrap_or_default(),
+        hbf_t: html_filters(case).unwrap_or_default(),
+        explicit_vars: !rule.variables.is_empty(),
+    };
     let n_markers = rule.markers.len();
     let mut router = Router::<Rule>::from_config(config.clone());
     router.insert(rule);
-    let routes = router.match_request(&request);
-    let mut tags = vec![format!("markers:{n_markers}"), format!("vars:{}", if explicit_vars { "explicit" } else { "bc" })];
+    let mut tags = vec![format!("markers:{n_markers}"), format!("vars:{}", if ctx.explicit_vars { "explicit" } else { "bc" })];
     if config.ignore_path_and_query_case { tags.push("cfg:ipc".into()); }
     if config.ignore_host_case { tags.push("cfg:ihc".into()); }
     if config.ignore_header_case { tags.push("cfg:ihdc".into()); }
-    if routes.is_empty() {
-        tags.push("match:no".into());
-        let mut o = Obs::new(json!({"match": false})).trivial(n_markers == 0);
-        o.tags = tags;
-        return o;
+    let (obs, failure, n_captured) = observe(&router, &request, &ctx);
+    tags.push(if obs["match"] == json!(true) { "match:yes".into() } else { "match:no".into() });
+    if n_captured > 0 { tags.push(format!("captured:{n_captured}")); }
+    // C12 (capture clause): warming the caches — on this router or on a clone that shares the routes — changes nothing
+    let mut cache_failure = None;
+    if let Value::Object(c) = get(case, "cache") {
+        let calls: Vec<Option<u64>> = c.get("calls").and_then(|x| x.as_array()).map(|a| a.iter().map(|l| l.as_u64()).collect()).unwrap_or_default();
+        let on_clone = c.get("on_clone").and_then(|x| x.as_bool()).unwrap_or(false);
+        tags.push(format!("cache:{}{}", calls.len(), if on_clone { ":clone" } else { "" }));
+        let mut clone = if on_clone { Some(router.clone()) } else { None };
+        for (i, limit) in calls.iter().enumerate() {
+            match clone.as_mut() {
+                Some(c) => c.cache(*limit),
+                None => router.cache(*limit),
+            }
+            let (obs2, _, _) = observe(&router, &request, &ctx);
+            if obs2 != obs && cache_failure.is_none() {
+                cache_failure = Some(format!("after cache call {} (limit {:?}{}) the observation changed from {obs} to {obs2}", i + 1, limit, if on_clone { ", on a clone" } else { "" }));
+            }
+            if let Some(c) = clone.as_ref() {
+                let (obs3, _, _) = observe(c, &request, &ctx);
+                if obs3 != obs && cache_failure.is_none() {
+                    cache_failure = Some(format!("the cached clone observes {obs3} instead of {obs}"));
+                }
+            }
+        }
     }
-    tags.push("match:yes".into());
+    let mut o = Obs::new(obs).trivial(n_markers == 0);
+    o.tags = tags;
+    if let Some(why) = cache_failure {
+        return o.fail(why, "cache-visible");
+    }
+    if let Some((why, sig)) = failure {
+        return o.fail(why, sig);
+    }
+    o
+}
+
+struct Ctx {
+    target_t: Option<String>,
+    hf_t: Vec<String>,
+    bf_t: Vec<String>,
+    hbf_t: Vec<(String, Option<String>)>,
+    explicit_vars: bool,
+}
+
+/// Match the request and observe the action: (canonical observation, oracle failure, number of captured markers).
+fn observe(router: &Router<Rule>, request: &Request, ctx: &Ctx) -> (Value, Option<(String, &'static str)>, usize) {
+    let routes = router.match_request(request);
+    if routes.is_empty() {
+        return (json!({"match": false}), None, 0);
+    }
     let route = routes[0].clone();
     // the outcome the library produced
-    let mut action = Action::from_routes_rule(routes, &request, None);
+    let mut action = Action::from_routes_rule(routes, request, None);
     let headers = action.filter_headers(Vec::new(), 302, false, None);
     let loc: Vec<String> = headers.iter().filter(|h| h.name == "Location").map(|h| h.value.clone()).collect();
     let hf: Vec<String> = headers.iter().filter(|h| h.name.starts_with("X-Out-")).map(|h| h.value.clone()).collect();
-    let bf = match action.create_filter_body(200, &[]) {
+    // html filters: the substituted value / inner_value as carried by the action (serde), not applied
+    let action_json = serde_json::to_value(&action).unwrap_or(Value::Null);
+    let hb: Vec<Value> = action_json["body_filters"]
+        .as_array()
+        .map(|a| a.iter().filter(|f| f["filter"].get("element_tree").is_some()).map(|f| json!([f["filter"]["value"], f["filter"]["inner_value"]])).collect())
+        .unwrap_or_default();
+    // a non-html content type drops the html filters from the chain: the probe only sees the text filters
+    let plain = [redirectionio::http::Header { name: "Content-Type".to_string(), value: "text/plain".to_string() }];
+    let bf = match action.create_filter_body(200, &plain) {
         None => String::new(),
         Some(mut fb) => {
             let mut o = fb.filter(PROBE.as_bytes().to_vec(), None);
@@ -286,43 +568,47 @@ fn run(case: &Value) -> Obs {
             String::from_utf8_lossy(&o).to_string()
         }
     };
-    let target = Action::get_target(&route, &request);
-    let actual = json!({"loc": loc, "hf": hf, "bf": bf});
+    let target = Action::get_target(&route, request);
+    let actual = json!({"loc": loc, "hf": hf, "bf": bf, "hb": hb});
     // every outcome the variable order could have produced (real `capture`, `variables`, `replace`)
-    let captured = route.capture(&request);
-    let vars = route.handler().variables(&captured, &request);
+    let captured = route.capture(request);
+    let vars = route.handler().variables(&captured, request);
     let mut outs: Vec<Value> = Vec::new();
-    let all = if explicit_vars { vec![vars.clone()] } else { orders(&vars) };
+    let all = if ctx.explicit_vars { vec![vars.clone()] } else { orders(&vars) };
     for order in &all {
-        let t = target_t.as_ref().map(|t| StaticOrDynamic::replace(t.clone(), order));
+        let t = ctx.target_t.as_ref().map(|t| StaticOrDynamic::replace(t.clone(), order));
         let l: Vec<String> = match &t {
-            Some(t) if !target_t.as_ref().unwrap().is_empty() => vec![t.clone()],
+            Some(t) if !ctx.target_t.as_ref().unwrap().is_empty() => vec![t.clone()],
             _ => vec![],
         };
-        let h: Vec<String> = hf_t.iter().map(|v| StaticOrDynamic::replace(v.clone(), order)).collect();
-        let mut b = if bf_t.is_empty() { String::new() } else { PROBE.to_string() };
-        for v in &bf_t {
+        let h: Vec<String> = ctx.hf_t.iter().map(|v| StaticOrDynamic::replace(v.clone(), order)).collect();
+        let mut b = if ctx.bf_t.is_empty() { String::new() } else { PROBE.to_string() };
+        for v in &ctx.bf_t {
             b.push_str(&StaticOrDynamic::replace(v.clone(), order));
         }
-        let o = json!({"loc": l, "hf": h, "bf": b, "target": t});
+        let hbv: Vec<Value> = ctx
+            .hbf_t
+            .iter()
+            .map(|(v, i)| json!([StaticOrDynamic::replace(v.clone(), order), StaticOrDynamic::replace(i.clone().unwrap_or_else(|| v.clone()), order)]))
+            .collect();
+        let o = json!({"loc": l, "hf": h, "bf": b, "hb": hbv, "target": t});
         if !outs.contains(&o) {
             outs.push(o);
         }
     }
     // `from_routes_rule` and `get_target` each call `variables` (each with its own HashMap order)
-    let strip = |o: &Value| json!({"loc": o["loc"], "hf": o["hf"], "bf": o["bf"]});
+    let strip = |o: &Value| json!({"loc": o["loc"], "hf": o["hf"], "bf": o["bf"], "hb": o["hb"]});
     let actual_ok = outs.iter().any(|o| strip(o) == actual) && outs.iter().any(|o| o["target"] == json!(target));
     outs.sort_by_key(outcome_key);
-    if captured.len() > 0 { tags.push(format!("captured:{}", captured.len())); }
-    let mut o = Obs::new(json!({"match": true, "outs": outs})).trivial(n_markers == 0);
-    o.tags = tags;
+    let n_out = outs.len();
+    let obs = json!({"match": true, "outs": outs});
     if !actual_ok {
-        return o.fail(format!("the action's outcome {actual} / get_target {target:?} is not among the outcomes of capture + variables + replace"), "action-not-in-orders");
+        return (obs, Some((format!("the action's outcome {actual} / get_target {target:?} is not among the outcomes of capture + variables + replace"), "action-not-in-orders")), captured.len());
     }
-    if outs.len() > 1 {
-        return o.fail("the outcome depends on the HashMap iteration order of the captured markers (equal-length names)", "hashmap-order");
+    if n_out > 1 {
+        return (obs, Some(("the outcome depends on the HashMap iteration order of the captured markers (equal-length names)".to_string(), "hashmap-order")), captured.len());
     }
-    o
+    (obs, None, captured.len())
 }
 
 // ---------------------------------------------------------------------------------------------------------
@@ -588,7 +874,7 @@ fn gen_case(rng: &mut Prng) -> Value {
                 0..=5 => json!({"name": vname, "kind": "marker", "arg": if rng.chance(5, 6) { rng.pick(&names).clone() } else { "nope".to_string() }, "tr": trs(rng)}),
                 6 => json!({"name": vname, "kind": "header", "arg": *rng.pick(&["X-Other", "x-foo", "Missing"]), "def": if rng.chance(1, 2) { json!("dflt") } else { Value::Null }, "tr": trs(rng)}),
                 7 => json!({"name": vname, "kind": "host", "tr": trs(rng)}),
-                8 => json!({"name": vname, "kind": *rng.pick(&["method", "scheme"]), "tr": trs(rng)}),
+                8 => json!({"name": vname, "kind": *rng.pick(&["method", "scheme", "ip", "time"]), "tr": trs(rng)}),
                 _ => json!({"name": vname, "kind": "path", "tr": trs(rng)}),
             };
             out_names.push(vname);
@@ -603,12 +889,32 @@ fn gen_case(rng: &mut Prng) -> Value {
     };
     let hf: Vec<Value> = (0..rng.below(3)).map(|_| json!(out_template(rng, &out_names))).collect();
     let bf: Vec<Value> = (0..rng.below(3)).map(|_| json!(out_template(rng, &out_names))).collect();
+    let hbf: Vec<Value> = (0..(if rng.chance(1, 3) { rng.range(1, 2) } else { 0 }))
+        .map(|_| json!([format!("<p>{}</p>", out_template(rng, &out_names)), if rng.chance(1, 2) { json!(out_template(rng, &out_names)) } else { Value::Null }]))
+        .collect();
     let inst: Vec<Value> = ms.iter().map(|m| json!([m.name, m.value])).collect();
+    let ip = if rng.chance(1, 2) { json!(*rng.pick(&["10.1.2.3", "192.168.0.1", "::1", "2001:db8::1", "::ffff:1.2.3.4", "fe80::1:2"])) } else { Value::Null };
+    let time = if rng.chance(2, 3) {
+        use chrono::Datelike;
+        let secs: i64 = *rng.pick(&[0, 1057056757, 951782400, 253402300799, 253402300800, -62167219200, -62167219201, 1700000000, 4102444800, 32503680000, -86400]);
+        let dt = chrono::DateTime::<chrono::Utc>::from_timestamp(secs, 0).unwrap();
+        let in_range = (0..=9999).contains(&dt.year());
+        json!({"secs": secs, "year": dt.year(), "rfc2822": if in_range { json!(dt.to_rfc2822()) } else { Value::Null }, "rfc3339": dt.to_rfc3339()})
+    } else {
+        Value::Null
+    };
+    let cache = if rng.chance(1, 3) {
+        let calls: Vec<Value> = (0..rng.range(1, 3)).map(|_| if rng.chance(1, 2) { Value::Null } else { json!(*rng.pick(&[0u64, 1, 2, 100])) }).collect();
+        json!({"calls": calls, "on_clone": rng.chance(1, 3)})
+    } else {
+        Value::Null
+    };
     json!({
         "cfg": cfg, "markers": markers, "vars": vars, "path": path_t, "host": host_t, "hdrs": rule_hdrs,
-        "target": target, "hf": hf, "bf": bf,
+        "target": target, "hf": hf, "bf": bf, "hbf": hbf,
         "req": {"path": req_path, "host": host_i, "scheme": if rng.chance(1, 2) { json!("https") } else { Value::Null },
-                "method": if rng.chance(1, 2) { json!("GET") } else { Value::Null }, "hdrs": req_hdrs},
+                "method": if rng.chance(1, 2) { json!("GET") } else { Value::Null }, "hdrs": req_hdrs, "ip": ip, "time": time},
+        "cache": cache,
         "inst": inst, "delim": delim, "acc": ms.iter().all(|m| m.accepted),
     })
 }
@@ -624,8 +930,82 @@ fn gen_sub(rng: &mut Prng) -> Value {
     json!({"kind": "sub", "vars": vars, "ts": ts})
 }
 
+/// The assumption of the matching theorems on the real crate: token list x haystack.
+fn gen_law(rng: &mut Prng) -> Value {
+    let ic = rng.chance(1, 3);
+    let k = rng.range(1, 3);
+    let mut ts: Vec<Value> = Vec::new();
+    let mut hay = String::new();
+    let names = ["a", "ab", "id", "m"];
+    if rng.chance(2, 3) {
+        ts.push(json!(["l", "/"]));
+        hay.push('/');
+    }
+    for i in 0..k {
+        let kind = rng.below(KINDS.len());
+        let name = if rng.chance(1, 8) && i > 0 { names[0] } else { names[i % names.len()] };
+        ts.push(json!(["g", name, KINDS[kind].regex]));
+        let pool = if rng.chance(3, 4) { KINDS[kind].acc } else { KINDS[kind].rej };
+        let v = rng.pick(pool).to_string();
+        hay.push_str(&if ic && rng.chance(1, 2) { flip_case(rng, &v) } else { v });
+        if i + 1 < k || rng.chance(1, 2) {
+            match rng.below(5) {
+                0 => {}
+                _ => {
+                    let l = *rng.pick(&["/", "-", ".", "_", "x", "A", "(", "|", "$", "\u{65e5}"]);
+                    for c in l.chars() {
+                        ts.push(json!(["l", c.to_string()]));
+                    }
+                    hay.push_str(&if ic && rng.chance(1, 2) { flip_case(rng, l) } else { l.to_string() });
+                }
+            }
+        }
+    }
+    match rng.below(8) {
+        0 => hay = format!("xx{hay}"),
+        1 => hay.push_str("yy"),
+        2 => {
+            hay.pop();
+        }
+        3 => hay = format!("a{hay}1"),
+        _ => {}
+    }
+    json!({"kind": "law", "ic": ic, "ts": ts, "s": hay})
+}
+
+/// Transformer chains on raw strings (words in every case style, separators, digits, uncased non-ASCII letters, multi-byte).
+fn gen_tr(rng: &mut Prng) -> Value {
+    let pieces = ["foo", "Bar", "BAZ", "x", "Y", "XMLHttp", "Request2", "a1B2", "_", "-", " ", ".", "__", "/", "42", "\u{5d0}", "\u{65e5}\u{672c}", "\u{20000}", "%41", "@id", "", "I", "iOS"];
+    let vals: Vec<Value> = (0..rng.range(3, 12)).map(|_| json!((0..rng.range(0, 5)).map(|_| *rng.pick(&pieces)).collect::<String>())).collect();
+    let chain: Vec<Value> = (0..rng.range(1, 3)).map(|_| tr(rng)).collect();
+    json!({"kind": "tr", "chain": chain, "vals": vals})
+}
+
 fn gen(args: &Args, emit: &mut dyn FnMut(Value)) {
     let mut rng = Prng::new(args.seed);
+    if args.tier == "thorough" {
+        // exhaustive: every string of length <= 5 over {a, b, A, B, 1, _, -} through each case transformer
+        let sym = ['a', 'b', 'A', 'B', '1', '_', '-'];
+        let mut all: Vec<String> = vec![String::new()];
+        let mut frontier: Vec<String> = vec![String::new()];
+        for _ in 0..5 {
+            let mut next = Vec::new();
+            for t in &frontier {
+                for c in sym {
+                    let mut t2 = t.clone();
+                    t2.push(c);
+                    next.push(t2);
+                }
+            }
+            all.extend(next.iter().cloned());
+            frontier = next;
+        }
+        for kind in ["camelize", "dasherize", "underscorize", "lowercase", "uppercase"] {
+            for chunk in all.chunks(400) {
+                emit(json!({"kind": "tr", "chain": [{"type": kind, "opts": null}], "vals": chunk, "exh": true}));
+            }
+        }
+    }
     if args.tier == "thorough" {
         // exhaustive small scope of the substitution: every template of length <= 5 over {@, a, b} x every list of <= 2
         // variables over names {a, b, ab} x values {"", b, x} (+ one three-variable family)
@@ -674,6 +1054,10 @@ fn gen(args: &Args, emit: &mut dyn FnMut(Value)) {
     for i in 0..args.n {
         if i % 4 == 3 {
             emit(gen_sub(&mut rng));
+        } else if i % 8 == 6 {
+            emit(gen_law(&mut rng));
+        } else if i % 16 == 2 {
+            emit(gen_tr(&mut rng));
         } else {
             emit(gen_case(&mut rng));
         }
